@@ -45,9 +45,20 @@ JudgeRaw(rec) ==
           <<IterationSafe(rec.steps, b), "unsafe iteration (offsets, magic, size or delivered bytes)">>,
           <<rec.steps2 = rec.steps, "loading the same bytes twice gives different outcomes">> >>)
 
+\* a member of 4 GiB and more (its bytes are all 'Z'), then a three-byte member, then the end: sizes are compared as text
+JudgeArSparse(rec) ==
+    Guarded("wellformed-4GiB",
+       << <<~rec.panic, "panic">>,
+          <<rec.end = "eof" /\ Len(rec.members) = 2, "wrong number of members returned">> >>,
+       << <<rec.members[1].name = <<98, 105, 103>> /\ rec.members[1].size = rec.in.size
+            /\ rec.members[1].first = <<90, 90, 90, 90>> /\ rec.members[1].last = <<90, 90, 90, 90>>
+            /\ rec.members[2].name = <<116, 97, 105, 108>> /\ rec.members[2].size = <<51>> /\ rec.members[2].first = <<120, 121, 122>>,
+            "member metadata, bytes or offsets differ from the archive">> >>)
+
 Judge(rec) ==
     CASE rec.ev = "ar" -> JudgeAr(rec)
       [] rec.ev = "arbig" -> JudgeArBig(rec)
+      [] rec.ev = "arsparse" -> JudgeArSparse(rec)
       [] rec.ev = "arraw" -> JudgeRaw(rec)
       [] OTHER -> V(FALSE, "unknown-event", "unknown event")
 
